@@ -51,7 +51,7 @@ META = {
             "in 60 % of the runs half of the DIR+NXT starts have no start RxCmd (then 60 % of those present the first byte in "
             "the cycle right after the turnaround, also for one-byte and DIR-ended packets)",
 }
-TIERS = {"quick": {"runs": 2400, "wall": 70}, "thorough": {"runs": 20000, "wall": 900}}
+TIERS = {"quick": {"runs": 4800, "wall": 70}, "thorough": {"runs": 20000, "wall": 900}}
 
 
 def _status(rng):
